@@ -452,6 +452,10 @@ class C04(Prop):
         fixed_order = True
       elif rng.chance(0.04):
         child, base = tv.tuple_pair(g)         # fixed tuple over variable tuple at the size bounds
+      elif rng.chance(0.04):
+        # variable tuple (min >= 1, no max) over a variable base with a max_size: the max must be inherited
+        child, base, extra_values = tv.var_tuple_pair(g)
+        fixed_order = rng.chance(0.8)
       else:
         base = g.spec(rng.weighted([(2, 0), (5, 1), (3, 2)]))
         child = g.mutate(base)
